@@ -1,6 +1,7 @@
 import ElaVerif.Model.Node
 import ElaVerif.Lemmas.Node
 import ElaVerif.Lemmas.NodeValid
+import ElaVerif.Lemmas.NodeBest
 import ElaVerif.Gen.C12
 /-!
   C12 — the node follows the most-work valid chain.
@@ -64,6 +65,30 @@ theorem C12_active_chain_valid (P : Params) (g : Block) (ops : List Op) :
     StackValid P (run (initState P g) ops).gledger (run (initState P g) ops).active :=
   (valid_run P _ ops (valid_init P g)).2
 
+
+/-- **C12 (most work, over histories).** Start from the genesis state and deliver any list of blocks such
+    that (i) every block arrives after its parent, (ii) every tip stays at or below `CRCOnlyDPOSHeight`, so
+    the irreversibility guard is off, and (iii) no switch fails half-way (an `err` reply leaves the state
+    unchanged — the exception is exactly the known finding C12-reorg-midway). Then after the whole
+    history **no block in the index carries more cumulative work than the tip** (`workOf` =
+    `BlockNode.WorkSum`: parent's sum + `CalcWork(bits)`), and the active chain consists of indexed blocks.
+    Orphans, i.e. out-of-order delivery, are outside this theorem and left to the oracle. -/
+theorem C12_best (P : Params) (g : Block) (bs : List Block) (s' : NState)
+    (h : InOrderRun (initState P g) bs s') :
+    (∀ k ∈ s'.known, workOf s' k.id ≤ workOf s' s'.tip.id) ∧ (∀ p ∈ s'.active, p.1 ∈ s'.known) := by
+  have := (winv_inOrderRun h (winv_init P g) rfl).1
+  exact ⟨this.best, this.actKnown⟩
+
+/-- one accepted block keeps the invariant from any state that has it -/
+theorem C12_best_step (s : NState) (b : Block) (hi : WInv s) (hf : Fresh s b)
+    (hgu : s.tip.height ≤ s.P.guardFrom) (hok : (acceptBlock s b).2 ≠ .err) : WInv (acceptBlock s b).1 :=
+  winv_acceptBlock s b hi hf hgu hok
+
+/-- non-vacuity: the main chain and a lighter side block of the witness tree form such a history -/
+example : InOrderRun (initState P0 G) [A1, A2, B1] (deliverAll (initState P0 G) [A1, A2, B1]) :=
+  .step (by decide) (by decide) (fun h => absurd h (by decide))
+    (.step (by decide) (by decide) (fun h => absurd h (by decide))
+      (.step (by decide) (by decide) (fun h => absurd h (by decide)) (.nil _)))
 
 /-- a block that merely extends the tip and fails leaves the state untouched -/
 theorem C12_failed_extend_keeps_state (s : NState) (b : Block) (h : (extendTip s b).2 = .err) :
